@@ -12,9 +12,9 @@ mistral/workflow/commands.py: FailWorkflow / SucceedWorkflow / PauseWorkflow / N
                                    (joins through `defer`) + register start; SetWorkflowState →
                                    `wf_handler.set_workflow_state` (= Workflow.stop / pause)
   dispatcher.dispatch_workflow_commands   the backlog is polled (popped) and processed FIRST, then the
-                                   new commands; a command restored from its dict is a plain RunTask:
-                                   `wait` / `unique_key` are not restored, so a restored join command
-                                   creates an ordinary IDLE execution (commands.restore_command_from_dict)
+                                   new commands; a RunTask command restored from its dict keeps `wait` /
+                                   `unique_key` (repo_patches/32; before, a restored join command created an
+                                   ordinary IDLE execution that started at once)
   Task.complete                    next_tasks / has_next_tasks without the engine commands,
                                    error_handled over ALL commands, completion check registered iff the
                                    task has no next TASKS
@@ -94,20 +94,29 @@ def splitState : List Cmd → List Cmd × Option Cmd × List Cmd
 
 /-- `_rearrange_commands`: noops removed; the task commands before the first state command sorted; the
     commands after `fail` / `succeed` dropped; after `pause` kept (they will be saved to the backlog) -/
-def rearrange (waiting : Cmd → Bool) (cmds : List Cmd) : List Cmd :=
+def rearrange (srt : List Cmd → List Cmd) (cmds : List Cmd) : List Cmd :=
   let cs := cmds.filter fun c => cmdKind c.target != .noop
   match splitState cs with
-  | (pre, none, _) => pySort (cmdLT waiting) pre
+  | (pre, none, _) => srt pre
   | (pre, some c, tail) =>
-    pySort (cmdLT waiting) pre ++ c :: (if cmdKind c.target == .pause then tail else [])
+    srt pre ++ c :: (if cmdKind c.target == .pause then tail else [])
+
+/-- how the task commands before the state command are ordered, given which of them are waiting (joins) -/
+abbrev Sorter := (Cmd → Bool) → List Cmd → List Cmd
+
+/-- what the code does: `list.sort` with `_compare_task_commands` -/
+def pySorter : Sorter := fun waiting l => pySort (cmdLT waiting) l
+
+/-- clause order (no sort): the order of `Mistral.Engine.dispatch` -/
+def idSorter : Sorter := fun _ l => l
 
 /-- the execution a lookup by UNIQUE KEY finds (`Task.defer`, `_is_consumed_join_trigger`): rows created
     from restored commands have no unique key -/
 def findKeyed (w : World) (n : String) : Option TaskRow :=
   (w.tasks.filter fun r => r.name == n && r.keyed).getLast?
 
-/-- a RunTask command restored from the backlog: `wait` is not set and there is no unique key: an
-    ordinary IDLE execution, also for a join -/
+/-- an ordinary IDLE execution without unique key (only for a RunExistingTask command restored from the
+    backlog, which is rebuilt as a RunTask) -/
 def dispatchPlain (w : World) (c : Cmd) : World :=
   { w with tasks := w.tasks ++ [{ newRow w c .IDLE with keyed := false }],
            pending := w.pending ++ [Item.postStartTask (c.target, countName w c.target) true] }
@@ -140,21 +149,25 @@ def dispatchOneX (sp : Spec) (restored : Bool) (w : World) (c : Cmd) : World :=
     | .fail => { w with wf := (Lifecycle.wfApply w.wf (.stop .ERROR)).1 }
     | .succeed => { w with wf := (Lifecycle.wfApply w.wf (.stop .SUCCESS)).1 }
     | .task =>
-      if restored then dispatchPlain w c
-      else match c.existing with
-        | some t => { w with pending := w.pending ++ [.postStartTask t false] }   -- RunExistingTask
-        | none => dispatchTask sp w c
+      match c.existing with
+      | some t =>
+        -- RunExistingTask; restored from the backlog it is rebuilt as a RunTask (two `pause` commands in
+        -- one clause: corner not exercised by the tie)
+        if restored then dispatchPlain w c else { w with pending := w.pending ++ [.postStartTask t false] }
+      -- RunTask: since repo_patches/32 a command restored from the backlog keeps `wait` / `unique_key`,
+      -- so a restored join command defers like a freshly calculated one
+      | none => dispatchTask sp w c
 
 /-- `_process_commands` -/
-def processX (sp : Spec) (restored : Bool) (w : World) (cmds : List Cmd) : World :=
-  (rearrange (fun c => !restored && c.existing.isNone && (isJoin sp c.target).isSome) cmds).foldl (dispatchOneX sp restored) w
+def processX (srt : Sorter) (sp : Spec) (restored : Bool) (w : World) (cmds : List Cmd) : World :=
+  (rearrange (srt fun c => c.existing.isNone && (isJoin sp c.target).isSome) cmds).foldl (dispatchOneX sp restored) w
 
 /-- `dispatch_workflow_commands`: the backlog first (it is popped), then the new commands -/
-def dispatchX (sp : Spec) (w : World) (cmds : List Cmd) : World :=
-  processX sp false (processX sp true { w with backlog := [] } w.backlog) cmds
+def dispatchX (srt : Sorter) (sp : Spec) (w : World) (cmds : List Cmd) : World :=
+  processX srt sp false (processX srt sp true { w with backlog := [] } w.backlog) cmds
 
 /-- `Task.complete(state)` followed by `_check_affected_tasks` -/
-def completeTaskX (sp : Spec) (w : World) (r : TaskRow) (s : St) : World :=
+def completeTaskX (srt : Sorter) (sp : Spec) (w : World) (r : TaskRow) (s : St) : World :=
   if isCompleted r.state then checkAffected sp w (r.name, r.occ) else
   let cmds := if isCompleted w.wf then [] else nextOf sp r.name s
   let nt := cmds.filter fun x => !isCmdName x.1
@@ -166,14 +179,14 @@ def completeTaskX (sp : Spec) (w : World) (r : TaskRow) (s : St) : World :=
     else
       let w1' := { w1 with tasks := setTask w1.tasks { r1 with processed := true } }
       let w1'' := if nt.isEmpty then { w1' with pending := w1'.pending ++ [.postCheck] } else w1'
-      dispatchX sp w1'' (cmds.map fun (n, e) => { target := n, src := some ((r.name, r.occ), e) })
+      dispatchX srt sp w1'' (cmds.map fun (n, e) => { target := n, src := some ((r.name, r.occ), e) })
   checkAffected sp w2 (r.name, r.occ)
 
-def stepX (sp : Spec) (w : World) : Event → World
+def stepXg (srt : Sorter) (sp : Spec) (w : World) : Event → World
   | .start =>
     if w.wf != .IDLE then w else
     let starts := (sp.graph.tasks.filter fun t => (inbound sp.graph t.name).isEmpty).map (·.name)
-    dispatchX sp { w with wf := .RUNNING } (starts.map fun n => { target := n, src := none })
+    dispatchX srt sp { w with wf := .RUNNING } (starts.map fun n => { target := n, src := none })
   | .pause => { w with wf := (Lifecycle.wfApply w.wf .pause).1 }
   | .stop t => { w with wf := (Lifecycle.wfApply w.wf (.stop t)).1 }
   | .resume =>
@@ -196,7 +209,7 @@ def stepX (sp : Spec) (w : World) : Event → World
     else
       -- `dispatch_workflow_commands`: the backlog first, then ONE command list: the RunExistingTask
       -- commands of the IDLE tasks followed by the next commands
-      dispatchX sp w2 (idle.map (fun t => ({ target := t.1, src := none, existing := some t } : Cmd)) ++ cmds)
+      dispatchX srt sp w2 (idle.map (fun t => ({ target := t.1, src := none, existing := some t } : Cmd)) ++ cmds)
   | .execute t ok =>
     if !w.pending.contains (.runAction t) then w else
     { w with pending := removeFirst w.pending (.runAction t) ++ [.rpcResult t ok] }
@@ -230,7 +243,7 @@ def stepX (sp : Spec) (w : World) : Event → World
     | .rpcResult t ok =>
       match findTask w t with
       | none => w
-      | some r => completeTaskX sp w r (if ok then .SUCCESS else .ERROR)
+      | some r => completeTaskX srt sp w r (if ok then .SUCCESS else .ERROR)
     | .jobRefresh t =>
       match findTask w t with
       | none => w
@@ -252,9 +265,14 @@ def stepX (sp : Spec) (w : World) : Event → World
                 else
                 { w with tasks := setTask w.tasks { r with state := .RUNNING },
                          pending := w.pending ++ [.postRunAction t] }
-              else if L.state == .ERROR then completeTaskX sp w r .ERROR
+              else if L.state == .ERROR then completeTaskX srt sp w r .ERROR
               else w
 
+/-- the engine as the code runs it: the dispatcher's sort is `list.sort` -/
+def stepX (sp : Spec) (w : World) (e : Event) : World := stepXg pySorter sp w e
+
 def runX (sp : Spec) (evs : List Event) : World := evs.foldl (stepX sp) init
+
+def runXg (srt : Sorter) (sp : Spec) (evs : List Event) : World := evs.foldl (stepXg srt sp) init
 
 end Mistral.Engine
